@@ -174,6 +174,10 @@ func cmdCheck(args []string) int {
 			rep.Add("load", "load and type-check of "+*repo, "-", core.Undecided, err.Error())
 		} else {
 			rep = runProperty(pr, prog)
+			if rn := prog.Renames(); len(rn) > 0 {
+				rep.Extra["renames_recognised"] = rn
+				rep.Assume("identifiers of the reference tree that are absent here were matched to new identifiers of the same package / receiver / struct with the same signature or type and read under their reference names: " + strings.Join(rn, "; "))
+			}
 		}
 		var th map[string]interface{}
 		if *tier == "thorough" && err == nil {
